@@ -74,6 +74,19 @@ func build(root, id, scratch string) (string, error) {
 	}
 	bin := filepath.Join(scratch, "props.test")
 	args := []string{"test", "-c", "-tags", "verif", "-vet=off", "-o", bin}
+	if repo := os.Getenv("VERIF_REPO"); repo != "" && repo != "/repo" {
+		// sensitivity runs against a scratch copy of the repository (never used by the registered commands)
+		gm, err := os.ReadFile(filepath.Join(root, "go.mod"))
+		if err != nil {
+			return "", err
+		}
+		mf := filepath.Join(scratch, "go.mod")
+		_ = os.WriteFile(mf, []byte(strings.ReplaceAll(string(gm), "=> /repo", "=> "+repo)), 0o644)
+		if gs, err := os.ReadFile(filepath.Join(root, "go.sum")); err == nil {
+			_ = os.WriteFile(filepath.Join(scratch, "go.sum"), gs, 0o644)
+		}
+		args = append(args, "-modfile="+mf)
+	}
 	if cfgs[id].race {
 		args = append(args, "-race")
 	}
